@@ -91,4 +91,82 @@ def execMovSeq (rd : BitVec 32) (reg : BitVec 64) : List (BitVec 32) → Bool ×
     let r := execMovSeq rd (movWideVal reg w) ws
     (movWideOk rd w && r.1, r.2)
 
+/-! ### bit-field move: BFM / SBFM / UBFM executed (Arm ARM C6.2, shared pseudo-code) and what the aliases mean -/
+
+inductive BfOp where | bfm | sbfm | ubfm
+  deriving DecidableEq, Repr
+
+/-- `ROR(x, r)` on `datasize` bits (r < datasize, x < 2^datasize) -/
+def rorDs (sf : Bool) (x r : BitVec 64) : BitVec 64 :=
+  if sf then (x >>> r) ||| (x <<< (64#64 - r))
+  else ((x >>> r) ||| (x <<< (32#64 - r))) &&& 0xFFFFFFFF#64
+
+/-- `Ones(n)` for n = 1..64 (n = 64: the shift leaves 0, minus one = all ones) -/
+def onesN (n : BitVec 64) : BitVec 64 := (1#64 <<< n) - 1#64
+
+/-- BFM/SBFM/UBFM Xd, Xn, #immr, #imms:
+`(wmask, tmask) = DecodeBitMasks(N, imms, immr, FALSE)`: `wmask = ROR(Ones(S+1), R)`, `tmask = Ones(((S - R) MOD datasize) + 1)`;
+`bot = (dst AND NOT(wmask)) OR (ROR(src, R) AND wmask)`; `top = extend ? Replicate(src<S>) : dst`;
+`X[d] = (top AND NOT(tmask)) OR (bot AND tmask)`; `dst` is X[d] for BFM and zero for SBFM/UBFM.  A W destination is
+zero-extended.  Requires immr, imms < datasize. -/
+def bfmExec (op : BfOp) (sf : Bool) (immr imms dst0 src0 : BitVec 64) : BitVec 64 :=
+  let dmask : BitVec 64 := if sf then BitVec.allOnes 64 else 0xFFFFFFFF#64
+  let dsm1 : BitVec 64 := if sf then 63#64 else 31#64
+  let src := src0 &&& dmask
+  let dst := if op == .bfm then dst0 &&& dmask else 0#64
+  let wmask := rorDs sf (onesN (imms + 1#64)) immr
+  let tmask := onesN (((imms - immr) &&& dsm1) + 1#64)
+  let bot := (dst &&& ~~~wmask) ||| (rorDs sf src immr &&& wmask)
+  let top := if op == .sbfm then (if ((src >>> imms) &&& 1#64) == 1#64 then dmask else 0#64) else dst
+  ((top &&& ~~~tmask) ||| (bot &&& tmask)) &&& dmask
+
+inductive BfAlias where | bfc | bfi | sbfiz | ubfiz | bfxil | sbfx | ubfx
+  deriving DecidableEq, Repr
+
+def BfAlias.op : BfAlias → BfOp
+  | .bfc | .bfi | .bfxil => .bfm
+  | .sbfiz | .sbfx => .sbfm
+  | .ubfiz | .ubfx => .ubfm
+
+/-- insert-type aliases (operands written `#lsb, #width`, encoded as `immr = -lsb MOD size, imms = width-1`) -/
+def BfAlias.isInsert : BfAlias → Bool
+  | .bfc | .bfi | .sbfiz | .ubfiz => true
+  | _ => false
+
+/-- What the alias is documented to do (Arm ARM C6.2 "BFI", "BFC", "BFXIL", "SBFIZ", "SBFX", "UBFIZ", "UBFX"), for
+`lsb < datasize`, `1 ≤ width ≤ datasize - lsb`; `src` is ignored by BFC (Rn = ZR). -/
+def aliasMeaning (a : BfAlias) (sf : Bool) (lsb width dst0 src0 : BitVec 64) : BitVec 64 :=
+  let dmask : BitVec 64 := if sf then BitVec.allOnes 64 else 0xFFFFFFFF#64
+  let dst := dst0 &&& dmask
+  let src := if a == .bfc then 0#64 else src0 &&& dmask
+  let wm := onesN width
+  let fieldLow := src &&& wm                     -- the low `width` bits of src
+  let fieldAt := (src >>> lsb) &&& wm            -- `width` bits of src starting at `lsb`
+  let signLow := ((src >>> (width - 1#64)) &&& 1#64) == 1#64
+  let signAt := ((src >>> (lsb + width - 1#64)) &&& 1#64) == 1#64
+  (match a with
+   | .bfc | .bfi => (dst &&& ~~~(wm <<< lsb)) ||| (fieldLow <<< lsb)
+   | .ubfiz => fieldLow <<< lsb
+   | .sbfiz => (fieldLow <<< lsb) ||| (if signLow then ~~~(onesN (lsb + width)) else 0#64)
+   | .bfxil => (dst &&& ~~~wm) ||| fieldAt
+   | .ubfx => fieldAt
+   | .sbfx => fieldAt ||| (if signAt then ~~~wm else 0#64)) &&& dmask
+
+/-- the operands a disassembler shows for the alias (Arm ARM alias operand rules):
+insert-type `lsb = (size - immr) MOD size, width = imms + 1`; extract-type `lsb = immr, width = imms - immr + 1` -/
+def aliasOperands (a : BfAlias) (sf : Bool) (immr imms : BitVec 64) : BitVec 64 × BitVec 64 :=
+  let dsm1 : BitVec 64 := if sf then 63#64 else 31#64
+  if a.isInsert then ((0#64 - immr) &&& dsm1, imms + 1#64) else (immr, imms - immr + 1#64)
+
+/-- the architecture has an encoding for `#lsb, #width`: "<lsb> in the range 0 to size-1, <width> in the range 1 to
+size-<lsb>" (Arm ARM, every one of the seven aliases) -/
+def aliasEncodable (sf : Bool) (lsb width : BitVec 64) : Bool :=
+  let size : BitVec 64 := if sf then 64#64 else 32#64
+  lsb.ult size && (1#64).ule width && width.ule (size - lsb)
+
+/-- by-element index of the vector instructions: H:L:M for half-word elements (size field 1, Rm is 4 bits),
+H:L for word elements (size field 2, M is the top bit of Rm) -/
+def lmhIndex (sizeField l m h : BitVec 32) : BitVec 32 :=
+  if sizeField == 1#32 then (h <<< 2) ||| (l <<< 1) ||| m else (h <<< 1) ||| l
+
 end AsmjitVerif.A64Imm
